@@ -567,6 +567,13 @@ class FileStoragePacker(FileStorageFormatter):
                         is_dup = (
                             rpos and self._read_data_header(rpos).tid == h.tid)
                         if not is_dup:
+                            # The kept record of this revision may also be
+                            # one that is reachable only through a back
+                            # pointer from after the pack time.
+                            is_dup = any(
+                                self._read_data_header(p).tid == h.tid
+                                for p in self.gc.reach_ex.get(h.oid, ()))
+                        if not is_dup:
                             # Tag just this revision: the object may have
                             # been written again after the pack time, so
                             # its directory can hold files of revisions
